@@ -232,6 +232,8 @@ def tr_e(c, e):
         c.extern(name, ('fun', [t for (_, t) in args], rty))
         return ('(%s %s)' % (name, ' '.join(a for (a, _) in args)), rty)
     if k == 'refarg':
+        if c.havoc and e[1] in c.opaque:
+            return ('0', 'N')        # a class-typed local nobody reads: the callee may change it, nothing translated depends on it
         raise Unsupported('variable %s passed by non-const reference' % e[1])
     raise Unsupported('expression ' + str(k) + ' ' + repr(e)[:60])
 
